@@ -294,8 +294,26 @@ def parallel_run_lines(exe, lines, timeout=3600, env=None, cwd=None, args=()):
     return res
 
 
+_orig_load_known = vlib.load_known
+
+
+def load_known_with_proposals(prop):
+    """KNOWN_FINDINGS.txt, plus – only when VERIF_KNOWN_EXTRA names a file – proposed `known:` lines
+    that are not merged yet (used to rehearse the check before the shared file is updated)."""
+    import re
+    res = _orig_load_known(prop)
+    extra = os.environ.get("VERIF_KNOWN_EXTRA")
+    if extra and os.path.exists(extra):
+        for line in open(extra):
+            m = re.match(r"known:\s+property=(\S+)\s+id=(\S+)\s+(.*)", line.strip())
+            if m and m.group(1) == prop:
+                res.append({"id": m.group(2), "text": m.group(3)})
+    return res
+
+
 def install_parallel():
     vlib.run_lines = parallel_run_lines
+    vlib.load_known = load_known_with_proposals
 
 
 # ------------------------------------------------------------------------------------------
@@ -596,3 +614,63 @@ def classify(prop, line, out):
         if c not in GRID_CATS:
             return ("violation", m)
     return ("violation", msg)
+
+
+def branch_stats(line, out, stats):
+    """what the histories actually exercised (for the evidence histogram)"""
+    def c(k):
+        stats[k] = stats.get(k, 0) + 1
+    if line.split()[0].startswith("std"):
+        return
+    hdr, ops = parse_hist_line(line)
+    blocks = parse_hist_output(out)
+    if blocks is None or len(blocks) != len(ops) + 1:
+        c("branch:unparsed")
+        return
+    z = zone(hdr["zone"])
+    num, ttl, clock = hdr["num"], hdr["ttl"], hdr["clock"]
+    if hdr["legacy"] != "-":
+        c("branch:open/legacy-layout")
+    for op, prev, cur in zip(ops, blocks, blocks[1:]):
+        pset = {(a, e) for a, e, _ in prev.segs}
+        cset = {(a, e) for a, e, _ in cur.segs}
+        name = op[0]
+        if name == "create":
+            if cur.res == "c:EINVAL":
+                c("branch:create/invalid")
+            elif cur.res.startswith("PANIC"):
+                c("branch:create/panic")
+            elif cset == pset:
+                c("branch:create/existing")
+            else:
+                try:
+                    a, e = [int(x) for x in cur.res[2:].split(",")[:2]]
+                    gs, ge = ref_cell(z, hdr["unit"], num, int(op[1]))
+                    c("branch:create/new-" + ("on-grid" if (a, e) == (gs, ge) else
+                                              ("bumped+capped" if a != gs and e != ge else "bumped" if a != gs else "capped")))
+                except Exception:
+                    c("branch:create/new")
+        elif name == "select":
+            deadline = clock - dur(ttl)
+            sel = cur.res[2:].split(";r:")[0]
+            nsel = len(sel.split("+")) if sel else 0
+            c("branch:select/%s" % ("none" if nsel == 0 else "one" if nsel == 1 else "many"))
+            if any(e <= deadline for _, e, _ in prev.segs):
+                c("branch:select/with-expired-segments-present")
+        elif name == "interval":
+            c("branch:interval/" + ("coarser" if int(op[1]) > num else "finer" if int(op[1]) < num else "same"))
+            num = int(op[1])
+        elif name == "ttl":
+            c("branch:ttl/" + ("longer" if dur((op[1], int(op[2]))) > dur(ttl) else "shorter-or-same"))
+            ttl = (op[1], int(op[2]))
+        elif name == "clock":
+            c("branch:clock/" + ("back" if int(op[1]) < clock else "forward"))
+            clock = int(op[1])
+        elif name == "reopen":
+            c("branch:reopen/%s" % ("empty" if not prev.segs else "segments"))
+        elif name == "tick":
+            c("branch:tick/%s%s%s" % (cur.res[2:], "+removed" if pset - cset else "", "+created" if cset - pset else ""))
+        elif name == "retention":
+            c("branch:retention/" + ("removed-all" if pset and not cset else "removed-some" if pset - cset else "removed-none"))
+        elif name == "delold":
+            c("branch:delold/" + cur.res[2:] + ("" if len(pset) > 1 else "-keep-one" if len(pset) == 1 else "-empty"))
